@@ -17,8 +17,9 @@ def run(ctx):
         ctx.validate(TRACE_MODULE, tr, label="pure")
     # the same harness on the aligned qualifiers in intrinsic builds: the vector side runs GLM's SIMD kernels, the scalar side the scalar overloads
     simd = ["-DC01_ALIGNED", "-DGLM_FORCE_INTRINSICS", "-DGLM_FORCE_ALIGNED_GENTYPES"]
-    for name, flags in ([("sse2", ["-msse2"])] if ctx.quick else [("sse2", ["-msse2"]), ("sse4.1", ["-msse4.1"]), ("avx2", ["-mavx2", "-mfma"])]):
-        ba = ctx.build("c01-aligned-" + name.replace(".", ""), "c01.cpp", flags=flags + simd, opt="-O0", label="c01 aligned " + name)
+    levels = [("sse2", ["-msse2"]), ("avx2", ["-mavx2", "-mfma"])] if ctx.quick else [("sse2", ["-msse2"]), ("sse4.1", ["-msse4.1"]), ("avx2", ["-mavx2", "-mfma"])]
+    bins = vlib.pmap(lambda nf: ctx.build("c01-aligned-" + nf[0].replace(".", ""), "c01.cpp", flags=nf[1] + simd, opt="-O0", label="c01 aligned " + nf[0]), levels, jobs=3)
+    for (name, flags), ba in zip(levels, bins):
         if not ba:
             continue
         tra = ctx.scratch.path("c01-%s.ndjson" % name)
